@@ -104,7 +104,11 @@ def calling(sp, log):
     instance-level wrapper that is removed again before the state is snapshotted.  The wrapper changes nothing; it
     records, for every un-invert, how much the joint-to-joint distances changed (a mirror image keeps them) and the
     height of the top plate in the bottom frame afterwards (un-inverted means not below)."""
-    orig = sp._fixUpsideDown
+    orig = getattr(sp, "_fixUpsideDown", None)
+    if orig is None:            # a library without that private helper: un-inverts are not observed, everything else is
+        with quiet():
+            yield
+        return
 
     def observed():
         L0 = np.linalg.norm(np.array(sp.getTopJoints(), float) - np.array(sp.getBottomJoints(), float), axis=0)
